@@ -29,11 +29,13 @@ Alpha == << [s |-> "P",   t |-> "li t0, 1"],
             [s |-> "R",   t |-> "ret"],
             [s |-> "X",   t |-> "li a7, 10\n    ecall"],
             [s |-> "E",   t |-> "ecall"],
+            [s |-> "H2",  t |-> "la t2, L2\n    csrrw zero, 5, t2"],
+            [s |-> "U",   t |-> "uret"],
             [s |-> "A",   t |-> "la t1, D1"],
             [s |-> "CD",  t |-> "call D1"] >>
 NA == Len(Alpha)
 Sym(s) == CHOOSE a \in 1..NA : Alpha[a].s = s /\ \A b \in 1..(a - 1) : Alpha[b].s # s
-Terminators == {Sym("R"), Sym("X"), Sym("JK1"), Sym("JL1")}
+Terminators == {Sym("R"), Sym("X"), Sym("JK1"), Sym("JL1"), Sym("U")}
 \* shape weights (simulation picks successors uniformly)
 Shapes == <<"forced", "forced", "forced", "forced", "forced", "free", "free", "dup", "data">>
 Allowed(sh) == IF sh \in {"data", "free"} THEN 1..NA ELSE (1..NA) \ {Sym("A"), Sym("CD")}
